@@ -19,9 +19,12 @@ func (f *syntaxAggregateFunction) retrieve(
 		return err
 	}
 
-	result := values.result
+	// The user function may keep or return its argument,
+	// so it must never be handed the pooled buffer itself.
+	result := make([]interface{}, len(values.result))
+	copy(result, values.result)
 	if !f.param.isValueGroup() {
-		if arrayParam, ok := values.result[0].([]interface{}); ok {
+		if arrayParam, ok := result[0].([]interface{}); ok {
 			result = arrayParam
 		}
 	}
